@@ -371,7 +371,7 @@ def check_property(prop, cfg, tier, seed, replay_file=None):
                 codes = []
 
     # 3. verdicts
-    known = {k["code"]: k for k in load_known() if k["property"] == prop}
+    known = {k["code"]: k for k in load_known() if k["property"] == prop and "code" in k}
     viol, diverge, malformed, kf_hits = [], [], [], {}
     for l, c in zip(lines, codes):
         l["verdict"] = c
